@@ -76,6 +76,9 @@ func runC10(c *Ctx) {
 	}
 	ruleTLSSuccessEffects(c)
 
+	R.Rule("R-state-writers", "who-may-write", "the connection is replaced only by the TLS upgrade", 1)
+	c.obWriters("Conn.conn", "set at construction, replaced by the TLS connection after a successful handshake", "newConn", "(*Conn).handleStartTLS")
+
 	R.Rule("R-tls-no-plain-read", "E2 never-after", "between the 220 reply and init() nothing is read from the plaintext reader", 1)
 	if f := c.A.Func("(*Conn).handleStartTLS"); f != nil {
 		c.obNever("no plaintext read after 220", f, c.direct("reply:220"), lineReads, []string{"call:(*Conn).init"}, nil)
